@@ -33,6 +33,10 @@ def run_case(case):
             viol = "VIOLATION property=%s" % prop in r.stdout
             if kind == "breaking":
                 ok = r.returncode == 1 and viol
+                meta_p = os.path.join(os.path.dirname(patch), "meta.json")
+                want = json.load(open(meta_p)).get("expected_exit", 1) if os.path.exists(meta_p) else 1
+                if want == 2:       # kept although not caught: the recorded, explained outcome is "undecided"
+                    ok = r.returncode == 2 and not viol
             else:
                 ok = r.returncode in (0, 2) and not viol
             res.append((kind, cid, prop, "exit=%d%s" % (r.returncode, " VIOLATION" if viol else ""), ok))
@@ -84,9 +88,7 @@ def main():
     hl = os.path.join(SEEDED, "harmless")
     if os.path.isdir(hl):
         props = [c["property_id"] for c in json.load(open(os.path.join(HERE, "MANIFEST.json")))["checks"]]
-        touched = {"data.py": ["C09", "C14"], "dag_ast.py": ["C05", "C06", "C15"], "language.py": ["C01", "C02", "C04", "C08", "C16"],
-                   "analysis.py": ["C10"], "exec_numpy.py": ["C01", "C08", "C11", "C04"], "transform.py": ["C07", "C16"],
-                   "utils.py": ["C13", "C20"], "expression.py": ["C17", "C18", "C08"]}
+        touched = TOUCHED
         for f in sorted(os.listdir(hl)):
             if not f.endswith(".diff"):
                 continue
